@@ -25,6 +25,9 @@ def run(ctx):
     ctx.rule('C17.LIMIT', lambda: rule_limit(ctx), 6)
     ctx.rule('C17.UNSUB', lambda: rule_unsub(ctx), 3)
     ctx.rule('C17.STATUSSRC', lambda: rule_statussrc(ctx), 1)
+    # a headers reply is as long as what LogicalFile.read hands back for the clipped count: a size of 0 must read nothing
+    from . import c04 as _c04f
+    ctx.rule('C17.LOGICALFILE', lambda: _c04f.rule_logical_file(ctx, 'C17'), 2)
     # 'consistently, also from cache and for subscriptions': the cache discipline and the subscribe snapshot (C10, C07)
     from . import c10 as _c10, c07 as _c07
     from .fresh import Fresh, rule_epoch_bumped, rule_fill
